@@ -217,10 +217,12 @@ impl Space for Calculus {
         // ---- third-order correction: eta = 1/2 D^3 f*(z)[H^{-1} ds, v]
         let ds: Vec<f64> = (0..n).map(|i| s[i] * (1.0 + 0.1 * i as f64)).collect();
         let vdir: Vec<f64> = (0..n).map(|i| z[i] * (if i % 2 == 0 { 0.3 } else { -0.2 })).collect();
+        let mut want_eta: Option<Vec<f64>> = None;
         if let Some(eta) = any.view().v_higher_correction(&ds, &vdir) {
             if let Some(u) = solve_dense(&h_ad, &ds) {
                 let want: Vec<f64> = (0..n).map(|i| 0.5 * d3(&|x| fstar(k, x), &z, &basis(n, i), &u, &vdir)).collect();
                 meas("higher_correction", relerr(&eta, &want), 1e-11 / (rz * rz * rz).min(1.0), ctx)?;
+                want_eta = Some(want);
             }
         }
         // ---- conjugacy: Df*(-g(s)) = -s and <s, g(s)> = -nu
@@ -241,6 +243,25 @@ impl Space for Calculus {
             *v *= mu;
         }
         meas("dual-scaling Hs=mu*H", matrel(&hs, &muh), 1e-14, ctx)?;
+        // the correction as the solver obtains it: on objects that only ever see the real update_scaling
+        // (either strategy, fresh or used at another point before), never the hook that sets the scaling point
+        if let Some(want) = &want_eta {
+            for strat in [ScalingStrategy::Dual, ScalingStrategy::PrimalDual] {
+                if matches!(k, NKind::GenPow(_, _)) && strat == ScalingStrategy::PrimalDual {
+                    continue;
+                }
+                let mut other = AnyCone::new(k);
+                if let Some((z0, s0)) = self.prior(id) {
+                    if margin_dual(&cs, &z0) > 0.0 && margin_primal(&cs, &s0) > 0.0 {
+                        let _ = other.cone().update_scaling(&s0, &z0, 0.5, ScalingStrategy::PrimalDual);
+                    }
+                }
+                ensure!(other.cone().update_scaling(&s, &z, mu, strat), "update_scaling-fails-on-interior-point", "");
+                if let Some(eta) = other.view().v_higher_correction(&ds, &vdir) {
+                    meas(if strat == ScalingStrategy::Dual { "higher_correction after update_scaling(Dual)" } else { "higher_correction after update_scaling(PrimalDual)" }, relerr(&eta, want), 1e-11 / (rz * rz * rz).min(1.0), ctx)?;
+                }
+            }
+        }
         // mul_Hs and get_Hs agree with the stored matrix where implemented (3-d cones panic in mul_Hs by design: skip there)
         if matches!(k, NKind::GenPow(_, _)) {
             let x: Vec<f64> = (0..n).map(|i| 1.0 - 0.3 * i as f64).collect();
